@@ -227,7 +227,12 @@ class SeqAlg:
             return self.new_obj("list", node)
         if (isinstance(node, ast.Dict) and not node.keys) or (isinstance(node, ast.Call) and isinstance(node.func, ast.Name) and node.func.id == "dict" and not node.args and not node.keywords):
             return self.new_obj("dict", node)
-        if isinstance(node, ast.Call) and isinstance(node.func, ast.Name) and node.func.id in ("range", "enumerate", "zip", "reversed") or \
+        dz = self._dict_zip_count(node, env)
+        if dz is not None:
+            return dz
+        if isinstance(node, ast.Call) and isinstance(node.func, ast.Name) and (node.func.id in ("range", "enumerate", "zip", "reversed") or self._itertools_name(node.func.id) == "compress"
+                                                                                or (node.func.id in ("list", "tuple") and len(node.args) == 1 and isinstance(node.args[0], ast.Call)
+                                                                                    and isinstance(node.args[0].func, ast.Name) and self._itertools_name(node.args[0].func.id) == "compress")) or \
                 (isinstance(node, ast.Call) and isinstance(node.func, ast.Attribute) and node.func.attr in ("values", "items", "keys") and self._is_seq_expr(node.func.value, env)):
             c = self.as_comp(node, env)
             ref = self.new_obj("list", node)
@@ -242,6 +247,82 @@ class SeqAlg:
         except Exception as err:  # noqa: BLE001
             raise Unsupported(f"expression not evaluated: {err}") from err
         return self.res(t)
+
+    def _itertools_name(self, name):
+        """The itertools function a module-level name is bound to by `from itertools import f [as name]`, else None."""
+        tree = self.eng.repo.modules[self.f.module].tree
+        for n in tree.body:
+            if isinstance(n, ast.ImportFrom) and n.module == "itertools":
+                for a in n.names:
+                    if (a.asname or a.name) == name:
+                        return a.name
+        return None
+
+    def _dict_zip_count(self, node, env):
+        """dict(zip(count(k), X)) / dict(enumerate(X, k)): the dict keyed k, k + 1, ... over the elements of X in order."""
+        if not (isinstance(node, ast.Call) and isinstance(node.func, ast.Name) and node.func.id == "dict" and len(node.args) == 1 and not node.keywords and isinstance(node.args[0], ast.Call)):
+            return None
+        inner = node.args[0]
+        if not isinstance(inner.func, ast.Name):
+            return None
+        base, seq = None, None
+        if inner.func.id == "zip" and len(inner.args) == 2 and isinstance(inner.args[0], ast.Call) and isinstance(inner.args[0].func, ast.Name) and self._itertools_name(inner.args[0].func.id) == "count" \
+                and len(inner.args[0].args) <= 2 and not inner.args[0].keywords:
+            ca = inner.args[0].args
+            if len(ca) == 2 and not (isinstance(ca[1], ast.Constant) and ca[1].value == 1):
+                return None
+            b = self.expr(ca[0], env) if ca else ("const", 0)
+            base, seq = b, inner.args[1]
+        elif inner.func.id == "enumerate" and 1 <= len(inner.args) <= 2:
+            base = self.expr(inner.args[1], env) if len(inner.args) == 2 else ("const", 0)
+            for k in inner.keywords:
+                if k.arg == "start":
+                    base = self.expr(k.value, env)
+            seq = inner.args[0]
+        if base is None or not (is_const(base) and isinstance(base[1], int)):
+            return None
+        c = self.as_comp(seq, env)
+        ref = self.new_obj("dict", node)
+        self.objs[ref[1]].comp, self.objs[ref[1]].base = c, base[1]
+        return ref
+
+    def _const_table_comp(self, seq):
+        """A constant sequence whose structure is an arithmetic progression (of ints, or of tuples whose components are each an arithmetic progression or
+        a power of two with such an exponent): the comprehension over a range that generates it.  [(i, 1 << 64 - i) for i in range(65)] folded to a
+        constant is recognised as exactly that."""
+        seq = list(seq)
+        n = len(seq)
+        if n < 2:
+            return None
+
+        def progression(xs):
+            if not all(isinstance(x, int) and not isinstance(x, bool) for x in xs):
+                return None
+            d = xs[1] - xs[0]
+            return (xs[0], d) if all(xs[i] - xs[i - 1] == d for i in range(1, len(xs))) else None
+
+        rows = [x if isinstance(x, tuple) else (x,) for x in seq]
+        width = len(rows[0])
+        if any(len(r) != width for r in rows):
+            return None
+        v = self.fresh()
+        self._gv_ranges[v] = (("const", 0), ("const", n), 1)
+        self.sym(v)
+        comps = []
+        for j in range(width):
+            col = [r[j] for r in rows]
+            ap = progression(col)
+            if ap is not None:
+                comps.append(("bin", "+", ("const", ap[0]), ("bin", "*", ("const", ap[1]), v)))
+                continue
+            if all(isinstance(x, int) and not isinstance(x, bool) and x > 0 and x & (x - 1) == 0 for x in col):
+                ape = progression([x.bit_length() - 1 for x in col])
+                if ape is not None:
+                    comps.append(("bin", "<<", ("const", 1), ("bin", "+", ("const", ape[0]), ("bin", "*", ("const", ape[1]), v))))
+                    continue
+            return None
+        elt = ("tuple", tuple(comps)) if isinstance(seq[0], tuple) else comps[0]
+        return Comp(((v, ("const", 0), ("const", n), 1),), (), elt)
 
     def _is_seq_expr(self, node, env) -> bool:
         try:
@@ -464,6 +545,15 @@ class SeqAlg:
                 raise Unsupported("reversed of a filtered sequence")
             if fn in ("list", "tuple", "iter") and len(node.args) == 1:
                 return self.as_comp(node.args[0], env)
+            if self._itertools_name(fn) == "compress" and len(node.args) == 2 and not node.keywords:
+                # compress(data, selectors): the elements of data whose selector (same position) is true
+                z = ast.Call(func=ast.Name(id="zip", ctx=ast.Load()), args=list(node.args), keywords=[])
+                ast.copy_location(z, node)
+                ast.fix_missing_locations(z)
+                c = self.as_comp(z, env)
+                if c.elt[0] != "tuple" or len(c.elt[1]) != 2:
+                    raise Unsupported("compress")
+                return Comp(c.gens, c.conds + (self.se.cond(c.elt[1][1]),), c.elt[1][0])
             if fn == "product" and len(node.args) == 2 and self._is_itertools(fn):
                 a, b = self.as_comp(node.args[0], env), self.as_comp(node.args[1], env)
                 return Comp(a.gens + b.gens, a.conds + b.conds, ("tuple", (a.elt, b.elt)))
@@ -489,6 +579,11 @@ class SeqAlg:
             if o.kind == "dict":
                 return Comp(c.gens, c.conds, ("bin", "+", self._noted(self.pc(c.gens, c.conds)), ("const", o.base)))
             return c
+        tab = t[1] if (is_const(t) and isinstance(t[1], (tuple, list))) else (t[1].v if (t[0] == "gval" and isinstance(t[1].v, (list, tuple))) else None)
+        if tab is not None:
+            c = self._const_table_comp(tab)
+            if c is not None:
+                return c
         if is_const(t) and isinstance(t[1], range) and t[1].step in (1, -1):
             v = self.fresh()
             self._gv_ranges[v] = (("const", t[1].start), ("const", t[1].stop), t[1].step)
